@@ -2,6 +2,10 @@ import Sudachi.Proofs.Build
 import Sudachi.Proofs.BuildTotal
 import Sudachi.Proofs.BuildLimits
 import Sudachi.Proofs.BuildKept
+import Sudachi.Proofs.BuildShape
+import Sudachi.Proofs.BuildCodec
+import Sudachi.Props.C05
+import Sudachi.Props.C03
 /-!
 # C06 — the dictionary compiler is total and never emits an invalid dictionary
 
@@ -804,5 +808,282 @@ theorem failed_read_kept_row_validated :
       (inputRaw [.conn m11, partIgn [(row ['あ'] ['0'] ['0']).set 13 ['2'], shortRow, row ['う'] ['0'] ['0']], .resolve]) none
       = .err .compile .InvalidFieldSize 0 := by
   rfl
+
+
+/-! ## success ⇒ the dictionary LOADS and ANALYSES (last clause of the property): the builder model composed with
+C05's writer / loader (`Model/Codec*.lean`, `C05.dict_roundtrip`) and C03's pipeline (`Model/Total.lean`,
+`C03.tokenize_total`) through `BuildLoad.toCodec` (`Model/BuildLoad.lean`, executed by the driver on every successful
+case and compared with the real `DictionaryLoader`: token `load=` of the answer line)
+
+Parameters of the file C06's builder model does not keep (`BuildLoad.Aux`): creation time (`u64`), description bytes
+(C06 keeps their number: `hdesc`), trie blob of the external builder (C06 keeps its length; an array of `u32` units:
+`htrie`), code variant of `write_word_info`.  `hbase`: the POS table a user builder starts from has at most 32768 rows
+(what a dictionary built by this builder has; 0 for a system builder).  `hsize`: the file is smaller than 4 GiB (the
+offsets are `u32`; nothing in the builder checks it - it bounds the trie blob as much as the input). -/
+
+open BuildLoad in
+/-- **compile_output_is_codec_file** (FULL).  For every sequence of calls the compiler accepts (any variant with the
+right-id check `d3`; any sink), the emitted entries / POS table / matrix are a builder state of C05's writer model
+that lies within the limits of the binary format (`Codec.FileOk`: `i16` parameters and matrix sizes, one `i16` per
+cell, `u16` POS ids and POS-row count, six strings per POS row, strings of scalar values with ≤ 32767 UTF-16 units,
+keys ≤ 32767 bytes, `u32` ids, ≤ 127 items per array and per homograph group, description ≤ 256 bytes) and passes
+C05's `validateEntries`: the format limits are exactly what C06's `compile_valid` (limits, references, ids) plus the
+types of the parsers establish. -/
+theorem compile_output_is_codec_file (v : Variant) (x : Ext) (inp : Input) (limit : Option Nat) (n cnt : Nat) (d : Dict)
+    (a : Aux) (h3 : v.d3 = true) (h : build v x inp limit = .ok n cnt d)
+    (hbase : inp.base.pos0.length ≤ 32768)
+    (hdesc : a.desc.length = inp.descLen) (htime : a.time < 18446744073709551616) (htrie : a.trie.length % 4 = 0)
+    (hsize : (Codec.fileBytes (toCodec d inp.base.pos0.length a)).length < 4294967296) :
+    Codec.FileOk (toCodec d inp.base.pos0.length a) ∧
+    Codec.validateEntries (toCodec d inp.base.pos0.length a).dfOwn (toCodec d inp.base.pos0.length a).maxLeft
+      (toCodec d inp.base.pos0.length a).maxRight (toCodec d inp.base.pos0.length a).numSystem
+      (toCodec d inp.base.pos0.length a).entries = true := by
+  obtain ⟨b, hp, hc⟩ := (build_ok_iff ..).1 h
+  obtain ⟨hsh, hb⟩ := prepare_shape hp
+  have hinv := prepare_inv hp
+  refine ⟨?_, ?_⟩
+  · have := fileOk_of_compile a hsh hinv hc (by rw [hb]; exact hbase) hdesc htime htrie (by rw [hb]; exact hsize)
+    rw [hb] at this; exact this
+  · obtain ⟨_, hv, _, hd⟩ := (compile_ok_iff ..).1 hc
+    subst hd
+    exact validateEntries_bridge h3 hv
+
+open BuildLoad in
+/-- **compile_ok_loads** (FULL).  `compile … = ok` ⇒ C05's writer emits the file for the same builder state, the
+loader model (`read_system_dictionary` / `read_user_dictionary`: header, grammar block, lexicon block, every offset in
+range) succeeds on it and returns what was declared: the POS rows the dictionary adds, the matrix sizes and EVERY cell
+(`cellCost`: the last cost written to the cell, 0 if none), one word per entry, and for every entry its parameters
+and its word-info record (headword, key length, POS id, split units, word structure, synonym groups).  These are the
+quantities of the `load=` / `par=` tokens the driver prints and the harness compares with the real loader. -/
+theorem compile_ok_loads (v : Variant) (x : Ext) (inp : Input) (limit : Option Nat) (n cnt : Nat) (d : Dict)
+    (a : Aux) (h3 : v.d3 = true) (h : build v x inp limit = .ok n cnt d)
+    (hbase : inp.base.pos0.length ≤ 32768)
+    (hdesc : a.desc.length = inp.descLen) (htime : a.time < 18446744073709551616) (htrie : a.trie.length % 4 = 0)
+    (hsize : (Codec.fileBytes (toCodec d inp.base.pos0.length a)).length < 4294967296) :
+    ∃ ld g,
+      Codec.compile (toCodec d inp.base.pos0.length a) = .ok (Codec.fileBytes (toCodec d inp.base.pos0.length a)) ∧
+      loadFile d.numSystem.isSome (Codec.fileBytes (toCodec d inp.base.pos0.length a)) = .ok ld ∧
+      ld.grammar = some g ∧
+      g.posList = (d.pos.map (fun k => k.map str)).drop inp.base.pos0.length ∧
+      g.numLeft = d.conn.nl.toNat ∧ g.numRight = d.conn.nr.toNat ∧
+      (∀ l r, l < d.conn.nl.toNat → r < d.conn.nr.toNat → g.cost l r = .ok (cellCost d.conn l r)) ∧
+      ld.lexicon.size = d.entries.length ∧
+      ∀ i e, d.entries[i]? = some e →
+        ld.lexicon.getParams i = .ok (e.left, e.right, e.cost) ∧
+        ∃ wi, ld.lexicon.parseWordInfo i = .ok wi ∧ wi.surface = str e.headwordStr ∧
+          wi.headWordLength = Build.utf8Len e.surface ∧ wi.posId = e.pos ∧
+          wi.aUnitSplit = e.splitsA.map unitRaw ∧ wi.bUnitSplit = e.splitsB.map unitRaw ∧
+          wi.wordStructure = e.wordStructure ∧ wi.synonymGroupIds = e.synonyms := by
+  obtain ⟨hok, hval⟩ := compile_output_is_codec_file v x inp limit n cnt d a h3 h hbase hdesc htime htrie hsize
+  obtain ⟨ld, g, c1, _, c3, _, _, _, _, g1, g2, g3, g4, g5, _, _, s1, s2⟩ :=
+    C05.dict_roundtrip (toCodec d inp.base.pos0.length a) hok hval
+  refine ⟨ld, g, c1, ?_, g1, g2, g3, g4, ?_, by rw [s1]; simp [toCodec], ?_⟩
+  · unfold loadFile; exact c3
+  · intro l r hl hr
+    exact g5 (cellCost d.conn) (holds_matrixBytes d.conn) l r hl hr
+  · intro i e hi
+    have hi' : (toCodec d inp.base.pos0.length a).entries[i]? = some (entry e) := by simp [toCodec, hi]
+    obtain ⟨p1, p2⟩ := s2 i (entry e) hi'
+    refine ⟨p1, _, p2, entry_headwordS e, ?_, rfl, rfl, rfl, rfl, rfl⟩
+    show Codec.utf8LenStr (str e.surface) = Build.utf8Len e.surface
+    exact utf8Len_str e.surface
+
+open BuildLoad in
+/-- **compiled_dictionary_analyses** (FULL for system dictionaries with a square matrix; D8 and D17 are the two
+exclusions, see below).  A system dictionary (`hsys`) compiled with ids validated against the matrix that is written
+(`hconn`) whose matrix is square (`hsq`) loads (`compile_ok_loads`) and gives C03's analysis model what
+`C03.tokenize_total` asks of a lexicon and a grammar:
+
+* (ids, as USED by `connect`: `conn.cost(previous.right_id, next.left_id)`, first argument bounded by `num_left`, second
+  by `num_right`, BOS/EOS have id 0) for every pair of indexed words and for BOS/EOS next to any indexed word the
+  loaded matrix answers a cost without its debug assertion or a slice failure, and the cost is an `i16`;
+* (references = `LexClosed`) `get_word_info(i)` (all fields, dictionary form resolved inside the lexicon) succeeds for
+  every word;
+* (`i16` costs) every word's cost is an `i16`; key lengths and unit counts are representable (`compile_ok_loads`);
+* hence, for ANY analysis configuration whose lexicon and connection function are the loaded ones (`lexWords`,
+  `connFn`), tokenizing any text never panics under the remaining named hypotheses of `C03.tokenize_total`
+  (character definition `hmk`, providers `hprov`/`hregex`/`hprovcost`, plugins `hplug`/`hutf`/`hrew`/`hkeep`, D7
+  `hbound`, `hrowsz`), which are not about the dictionary file.
+
+Exclusions, each with its kernel-checked counterexample kept: **D17** non-square matrix -
+`nonsquare_use_counterexample` (accepted ids outside the dimension the analyser bounds them by), so `hsq`; **D8** user
+dictionary with a declared dictionary form - `userdict_dicform_counterexample`, `C05.user_dicform_counterexample`
+(`get_word_info` panics), so `hsys` (a user dictionary is analysed through the layered lexicon set, C12's model). -/
+theorem compiled_dictionary_analyses (v : Variant) (x : Ext) (inp : Input) (limit : Option Nat) (n cnt : Nat) (d : Dict)
+    (a : Aux) (h3 : v.d3 = true) (hconn : SizesFollowMatrix v inp) (h : build v x inp limit = .ok n cnt d)
+    (hsys : inp.base.numSystem = none) (hsq : d.conn.nl = d.conn.nr)
+    (hbase : inp.base.pos0.length ≤ 32768)
+    (hdesc : a.desc.length = inp.descLen) (htime : a.time < 18446744073709551616) (htrie : a.trie.length % 4 = 0)
+    (hsize : (Codec.fileBytes (toCodec d inp.base.pos0.length a)).length < 4294967296) :
+    ∃ ld g,
+      Codec.readSystem (Codec.fileBytes (toCodec d inp.base.pos0.length a)) 0 = .ok ld ∧ ld.grammar = some g ∧
+      -- connection ids as used
+      (∀ e1 ∈ d.entries, ∀ e2 ∈ d.entries, e1.shouldIndex = true → e2.shouldIndex = true →
+        (∃ c, g.cost e1.right.toNat e2.left.toNat = .ok c ∧ Total.I16 c) ∧
+        (∃ c, g.cost 0 e2.left.toNat = .ok c ∧ Total.I16 c) ∧ (∃ c, g.cost e1.right.toNat 0 = .ok c ∧ Total.I16 c)) ∧
+      -- word infos
+      (∀ i, i < d.entries.length → ∃ wi, ld.lexicon.getWordInfo i = .ok wi) ∧
+      -- costs
+      (∀ w ∈ lexWords d, Total.I16 w.c) ∧ Total.I16Conn (connFn g) ∧
+      -- analysis
+      ∀ (lv : EditM.LenV) (cfg : Total.Cfg) (orig : List Nat) (rv : Oov.Variant) (bowFix : Bool) (tab : List (Nat × Nat)),
+        cfg.lex = lexWords d → cfg.conn = connFn g →
+        (∀ chars, Oov.mkBufV rv bowFix tab chars = some (cfg.mkBuf chars)) →
+        cfg.providers ≠ [] →
+        (∀ p ∈ cfg.providers, ∀ c, p = .regex c → c.skipEmpty = true) →
+        (∀ p ∈ cfg.providers, Total.ProviderCostOk p) →
+        (∀ p ∈ cfg.inputPlugins, ∀ t, Total.NoPanic (p t)) →
+        (∀ l0 l, EditM.startBuild orig = some l0 → Total.rewriteInput lv cfg.inputPlugins l0 = .ok l →
+          Wire.utf8Decode (EditM.textOf l) ≠ none) →
+        (∀ chars, Total.Reaches lv cfg orig chars → chars.length ≤ 32767) →
+        (∀ chars nodes, Total.Reaches lv cfg orig chars →
+          Oov.buildLattice cfg.providers cfg.lex (cfg.mkBuf chars) = .ok nodes →
+          ∀ e, (nodes.map Total.toVit).countP (fun n => n.e == e) ≤ 65535) →
+        (∀ path, Total.NoPanic (cfg.rewrite path)) →
+        (∀ (nb : Nat) path path', (∀ q ∈ path, q.eb ≤ nb) → cfg.rewrite path = .ok path' → ∀ p ∈ path', p.1.eb ≤ nb) →
+        Total.NoPanic (Total.tokenize .d6fix lv cfg orig) := by
+  obtain ⟨ld, g, _, hload, hg, _, hnl, hnr, hcost, hsz, _⟩ :=
+    compile_ok_loads v x inp limit n cnt d a h3 h hbase hdesc htime htrie hsize
+  obtain ⟨hok, hval⟩ := compile_output_is_codec_file v x inp limit n cnt d a h3 h hbase hdesc htime htrie hsize
+  obtain ⟨b, hp, hc⟩ := (build_ok_iff ..).1 h
+  obtain ⟨hsh, hb⟩ := prepare_shape hp
+  have hdns : d.numSystem = none := by
+    obtain ⟨_, _, _, hd⟩ := (compile_ok_iff ..).1 hc
+    subst hd; show b.base.numSystem = none; rw [hb]; exact hsys
+  have hrange : ∀ e ∈ d.entries, EntryRange e := by
+    obtain ⟨_, _, _, hd⟩ := (compile_ok_iff ..).1 hc
+    subst hd; exact fun e he => (hsh.1.2 e he).1
+  have hcs : ConnShape d.conn := by
+    obtain ⟨_, _, _, hd⟩ := (compile_ok_iff ..).1 hc
+    subst hd; exact hsh.2
+  have huse := square_use_ok v x inp limit n cnt d h3 hconn h hsq
+  have hrefs := compile_valid_refs v x inp limit n cnt d h
+  have hrd : Codec.readSystem (Codec.fileBytes (toCodec d inp.base.pos0.length a)) 0 = .ok ld := by
+    simpa [loadFile, hdns] using hload
+  -- a cost inside the matrix
+  have hin : ∀ l r : Int, 0 ≤ l → l < d.conn.nl → 0 ≤ r → r < d.conn.nr →
+      ∃ c, g.cost l.toNat r.toNat = .ok c ∧ Total.I16 c := by
+    intro l r l0 l1 r0 r1
+    exact ⟨_, hcost l.toNat r.toNat (by omega) (by omega), cellCost_range d.conn _ _⟩
+  refine ⟨ld, g, hrd, hg, ?_, ?_, ?_, ?_, ?_⟩
+  · intro e1 he1 e2 he2 i1 i2
+    obtain ⟨a1, a2, _, _⟩ := huse e1 he1 i1
+    obtain ⟨_, _, b3, b4⟩ := huse e2 he2 i2
+    have hpos : (0 : Int) < d.conn.nl ∧ (0 : Int) < d.conn.nr := by omega
+    refine ⟨hin _ _ a1 a2 b3 b4, ?_, ?_⟩
+    · simpa using hin 0 _ (Int.le_refl 0) hpos.1 b3 b4
+    · simpa using hin _ 0 a1 a2 (Int.le_refl 0) hpos.2
+  · intro i hi
+    obtain ⟨e, he⟩ : ∃ e, d.entries[i]? = some e := ⟨d.entries[i], by simp [hi]⟩
+    have hmem := List.mem_of_getElem? he
+    have hi' : (toCodec d inp.base.pos0.length a).entries[i]? = some (entry e) := by simp [toCodec, he]
+    -- the dictionary form of a system dictionary: `*` or an existing entry of the same lexicon
+    have hdf := (hrefs e hmem).1
+    have hst : Codec.storeDf (toCodec d inp.base.pos0.length a).dfFix (entry e) = entry e := by
+      apply Codec.storeDf_sys
+      rcases hdf with h0 | h0
+      · left; exact h0
+      · right
+        simp only [RefOk, hdns] at h0
+        rw [(wid_bridge _).1]; exact h0.1
+    by_cases hinv : e.dicForm = WID_INVALID
+    · obtain ⟨ld', wi, r1, r2, _⟩ := C05.dict_roundtrip_dicform (toCodec d inp.base.pos0.length a) hok i (entry e) hi' none
+        (Or.inl ⟨by rw [hst]; exact hinv, rfl⟩)
+      have : ld' = ld := by
+        have := hrd; unfold Codec.readSystem at this
+        rw [r1] at this
+        simp only [bind, Codec.Outcome.bind] at this
+        split at this
+        · injection this
+        · simp at this
+      subst this; exact ⟨wi, r2⟩
+    · rcases hdf with h0 | h0
+      · exact absurd h0 hinv
+      · simp only [RefOk, hdns] at h0
+        have hw : e.dicForm = Build.widWord e.dicForm := by
+          have := h0.1; unfold Build.widDic Build.widWord Build.DIC_UNIT at *; omega
+        have hlt : e.dicForm < d.entries.length := by rw [hw]; exact h0.2
+        have h28 : e.dicForm < 268435456 := by
+          have := h0.1; unfold Build.widDic Build.DIC_UNIT at this; omega
+        by_cases hself : e.dicForm = i
+        · obtain ⟨ld', wi, r1, r2, _⟩ := C05.dict_roundtrip_dicform (toCodec d inp.base.pos0.length a) hok i (entry e) hi' none
+            (Or.inr (Or.inl ⟨by rw [hst]; exact hself, rfl⟩))
+          have : ld' = ld := by
+            have := hrd; unfold Codec.readSystem at this
+            rw [r1] at this
+            simp only [bind, Codec.Outcome.bind] at this
+            split at this
+            · injection this
+            · simp at this
+          subst this; exact ⟨wi, r2⟩
+        · obtain ⟨t, ht⟩ : ∃ t, (toCodec d inp.base.pos0.length a).entries[e.dicForm]? = some t :=
+            ⟨entry d.entries[e.dicForm], by simp [toCodec, hlt]⟩
+          obtain ⟨ld', wi, r1, r2, _⟩ := C05.dict_roundtrip_dicform (toCodec d inp.base.pos0.length a) hok i (entry e) hi' (some t)
+            (Or.inr (Or.inr ⟨by rw [hst]; show e.dicForm < 2147483648; omega, by rw [hst]; exact hself, t, by rw [hst]; exact ht, rfl⟩))
+          have : ld' = ld := by
+            have := hrd; unfold Codec.readSystem at this
+            rw [r1] at this
+            simp only [bind, Codec.Outcome.bind] at this
+            split at this
+            · injection this
+            · simp at this
+          subst this; exact ⟨wi, r2⟩
+  · intro w hw
+    simp only [lexWords, List.mem_map, List.mem_filter] at hw
+    obtain ⟨e, ⟨he, _⟩, rfl⟩ := hw
+    exact (hrange e he).2.2.1
+  · intro l r
+    unfold connFn
+    by_cases hlr : l < d.conn.nl.toNat ∧ r < d.conn.nr.toNat
+    · rw [hcost l r hlr.1 hlr.2]; exact cellCost_range d.conn l r
+    · have : g.cost l r = .panic "debug_assert:conn" := by
+        unfold Codec.Grammar.cost Codec.connCost
+        rw [hnl, hnr]
+        have : l ≥ d.conn.nl.toNat ∨ r ≥ d.conn.nr.toNat := by omega
+        rw [if_pos this]
+      rw [this]; exact ⟨by decide, by decide⟩
+  · intro lv cfg orig rv bowFix tab hlex hcn hmk hprov hregex hprovcost hplug hutf hbound hrowsz hrew hkeep
+    refine C03.tokenize_total lv cfg orig rv bowFix tab hmk hprov hregex ?_ hprovcost ?_ hplug hutf hbound hrowsz hrew hkeep
+    · intro w hw
+      rw [hlex] at hw
+      simp only [lexWords, List.mem_map, List.mem_filter] at hw
+      obtain ⟨e, ⟨he, _⟩, rfl⟩ := hw
+      exact (hrange e he).2.2.1
+    · rw [hcn]
+      intro l r
+      unfold connFn
+      by_cases hlr : l < d.conn.nl.toNat ∧ r < d.conn.nr.toNat
+      · rw [hcost l r hlr.1 hlr.2]; exact cellCost_range d.conn l r
+      · have : g.cost l r = .panic "debug_assert:conn" := by
+          unfold Codec.Grammar.cost Codec.connCost
+          rw [hnl, hnr]
+          have : l ≥ d.conn.nl.toNat ∨ r ≥ d.conn.nr.toNat := by omega
+          rw [if_pos this]
+        rw [this]; exact ⟨by decide, by decide⟩
+
+/-! non-vacuity of the hypotheses of the three theorems above -/
+
+/-- the two-word dictionary of `sink_failure`'s example (`あ` (0,0), `い` (1,1), matrix `2 2`) -/
+def twoWords : Input := input (some m22) [row ['あ'] ['0'] ['0'], row ['い'] ['1'] ['1']]
+
+/-- creation time, a 5-byte description, a 1024-byte trie blob (`twoWords.descLen`, `twoWords.trieLen`), repaired writer -/
+def twoAux : BuildLoad.Aux := ⟨1600000000, List.replicate 5 97, List.replicate 1024 0, true⟩
+
+set_option maxRecDepth 1000000 in
+/-- all hypotheses of `compile_output_is_codec_file` / `compile_ok_loads` / `compiled_dictionary_analyses` hold together
+for it on the tree as it is (`Variant.landed`); and the file C05's writer emits for the translated state has exactly the
+1412 bytes C06's script counts (the size of the real compiler's output for this input) -/
+example : ∃ d, Variant.landed.d3 = true ∧ build Variant.landed x0 twoWords none = .ok 1412 0 d ∧
+    SizesFollowMatrix Variant.landed twoWords ∧ twoWords.base.numSystem = none ∧ d.conn.nl = d.conn.nr ∧
+    twoWords.base.pos0.length ≤ 32768 ∧ twoAux.desc.length = twoWords.descLen ∧ twoAux.time < 18446744073709551616 ∧
+    twoAux.trie.length % 4 = 0 ∧
+    (Codec.fileBytes (BuildLoad.toCodec d twoWords.base.pos0.length twoAux)).length = 1412 :=
+  ⟨_, rfl, rfl, sizesFollow_repaired _ _ rfl rfl (by simp [twoWords, input, Base.system, Base.isUser]), rfl, rfl, by decide, rfl, by decide, rfl, by decide⟩
+
+/-- a configuration of the analysis model whose lexicon and connection function are the loaded ones exists (the other
+hypotheses of `compiled_dictionary_analyses` are those of `C03.tokenize_total`, inhabited together there) -/
+example (d : Dict) (g : Codec.Grammar) : ∃ cfg : Total.Cfg, cfg.lex = BuildLoad.lexWords d ∧ cfg.conn = BuildLoad.connFn g :=
+  ⟨{ inputPlugins := [], mkBuf := fun _ => ⟨[], [], [], []⟩, providers := [], lex := BuildLoad.lexWords d, conn := BuildLoad.connFn g,
+     rewrite := fun p => .ok (p.map (fun n => (n, []))) }, rfl, rfl⟩
 
 end C06
